@@ -53,7 +53,7 @@ static int c07_math(const char* fn, const char* sizefn, buf_t st, size_t size, i
 	/* ---------------------------------------------------------------- zz */
 	if (!strcmp(fn, "zzMul"))
 	{
-		word *a = ww(n), *b = ww(m), *c = ww(n + m);
+		word *a = ww(n), *b = ww(m), *c = wo(n + m);
 		CHK("zzMul_deep");
 		zzMul(c, a, n, b, m, st.p);
 		wfree(a, n); wfree(b, m); wfree(c, n + m);
@@ -61,7 +61,7 @@ static int c07_math(const char* fn, const char* sizefn, buf_t st, size_t size, i
 	}
 	if (!strcmp(fn, "zzSqr"))
 	{
-		word *a = ww(n), *c = ww(2 * n);
+		word *a = ww(n), *c = wo(2 * n);
 		CHK("zzSqr_deep");
 		zzSqr(c, a, n, st.p);
 		wfree(a, n); wfree(c, 2 * n);
@@ -69,7 +69,7 @@ static int c07_math(const char* fn, const char* sizefn, buf_t st, size_t size, i
 	}
 	if (!strcmp(fn, "zzSqrt"))
 	{
-		word *a = (m & 1) ? wwnz(n) : ww(n), *c = ww((n + 1) / 2);
+		word *a = (m & 1) ? wwnz(n) : ww(n), *c = wo((n + 1) / 2);
 		CHK("zzSqrt_deep");
 		if (m & 2) { /* perfect square of a random (n+1)/2-word value truncated to n words */
 			size_t h = (n + 1) / 2; word* t = ww(h); word* sq = ww(2 * h); buf_t s2 = stk(zzSqr_deep(h));
@@ -81,7 +81,7 @@ static int c07_math(const char* fn, const char* sizefn, buf_t st, size_t size, i
 	if (!strcmp(fn, "zzDiv") || !strcmp(fn, "zzMod"))
 	{
 		/* n >= m for zzDiv; divisor top word non-zero */
-		word *a = ww(n), *b = wwnz(m), *q, *r = ww(m);
+		word *a = ww(n), *b = wwnz(m), *q, *r = wo(m);
 		if (np > 3 && PA(2) == 1 && m) b[m - 1] = 1;               /* small top word: long normalisation shift */
 		if (np > 3 && PA(2) == 2 && m) b[m - 1] = (word)-1;        /* no shift */
 		if (np > 3 && PA(2) == 3) { size_t i; for (i = 0; i < n; ++i) a[i] = (word)-1; } /* maximal quotient digits */
@@ -89,7 +89,7 @@ static int c07_math(const char* fn, const char* sizefn, buf_t st, size_t size, i
 		{
 			CHK("zzDiv_deep");
 			if (n < m || m == 0) return 0;
-			q = ww(n - m + 1);
+			q = wo(n - m + 1);
 			zzDiv(q, r, a, n, b, m, st.p);
 			wfree(q, n - m + 1);
 		}
@@ -109,10 +109,10 @@ static int c07_math(const char* fn, const char* sizefn, buf_t st, size_t size, i
 		if (n == 0 || m == 0) return 0;
 		if (np > 3 && (PA(2) & 1)) { a[0] &= ~(word)255; b[0] &= ~(word)15; if (wwIsZero(a, n)) a[n - 1] = 1; if (wwIsZero(b, m)) b[m - 1] = 1; }  /* common powers of two */
 		if (np > 3 && (PA(2) & 2)) { wwSetZero(a, n - 1); }      /* sparse */
-		if (!strcmp(fn, "zzGCD")) { word* d = ww(mn); CHK("zzGCD_deep"); zzGCD(d, a, n, b, m, st.p); wfree(d, mn); }
+		if (!strcmp(fn, "zzGCD")) { word* d = wo(mn); CHK("zzGCD_deep"); zzGCD(d, a, n, b, m, st.p); wfree(d, mn); }
 		else if (!strcmp(fn, "zzIsCoprime")) { CHK("zzIsCoprime_deep"); zzIsCoprime(a, n, b, m, st.p); }
-		else if (!strcmp(fn, "zzLCM")) { word* d = ww(n + m); CHK("zzLCM_deep"); zzLCM(d, a, n, b, m, st.p); wfree(d, n + m); }
-		else { word *d = ww(mn), *da = ww(m), *db = ww(n); CHK("zzExGCD_deep"); zzExGCD(d, da, db, a, n, b, m, st.p); wfree(d, mn); wfree(da, m); wfree(db, n); }
+		else if (!strcmp(fn, "zzLCM")) { word* d = wo(n + m); CHK("zzLCM_deep"); zzLCM(d, a, n, b, m, st.p); wfree(d, n + m); }
+		else { word *d = wo(mn), *da = wo(m), *db = wo(n); CHK("zzExGCD_deep"); zzExGCD(d, da, db, a, n, b, m, st.p); wfree(d, mn); wfree(da, m); wfree(db, n); }
 		wfree(a, n); wfree(b, m);
 		return 1;
 	}
@@ -128,7 +128,7 @@ static int c07_math(const char* fn, const char* sizefn, buf_t st, size_t size, i
 	if (!strcmp(fn, "zzMulMod") || !strcmp(fn, "zzSqrMod") || !strcmp(fn, "zzInvMod") || !strcmp(fn, "zzDivMod") ||
 		!strcmp(fn, "zzAlmostInvMod") || !strcmp(fn, "zzMulWMod"))
 	{
-		word *mod = wwodd(n), *a, *b, *c = ww(n);
+		word *mod = wwodd(n), *a, *b, *c = wo(n);
 		if (n == 0) return 0;
 		if (n == 1 && mod[0] < 3) mod[0] = 3;
 		a = wwlt(mod, n); b = wwlt(mod, n);
@@ -192,7 +192,7 @@ static int c07_math(const char* fn, const char* sizefn, buf_t st, size_t size, i
 	}
 	if (!strcmp(fn, "zzRedBarrStart"))
 	{
-		word *mod = wwnz(n), *bp = ww(n + 2);
+		word *mod = wwnz(n), *bp = wo(n + 2);
 		CHK("zzRedBarrStart_deep");
 		if (n == 0) return 0;
 		zzRedBarrStart(bp, mod, n, st.p);
@@ -201,7 +201,7 @@ static int c07_math(const char* fn, const char* sizefn, buf_t st, size_t size, i
 	}
 	if (!strcmp(fn, "zzPowerMod"))
 	{
-		word *mod = wwodd(n), *a, *b = ww(m), *c = ww(n);
+		word *mod = wwodd(n), *a, *b = ww(m), *c = wo(n);
 		CHK("zzPowerMod_deep");
 		if (n == 0) return 0;
 		if (np > 3 && PA(2) == 1) mod[0] &= ~(word)1, mod[0] |= 2;   /* even modulus: other ring type */
@@ -214,7 +214,7 @@ static int c07_math(const char* fn, const char* sizefn, buf_t st, size_t size, i
 	/* ---------------------------------------------------------------- pp */
 	if (!strcmp(fn, "ppMul"))
 	{
-		word *a = ww(n), *b = ww(m), *c = ww(n + m);
+		word *a = ww(n), *b = ww(m), *c = wo(n + m);
 		CHK("ppMul_deep");
 		ppMul(c, a, n, b, m, st.p);
 		wfree(a, n); wfree(b, m); wfree(c, n + m);
@@ -222,7 +222,7 @@ static int c07_math(const char* fn, const char* sizefn, buf_t st, size_t size, i
 	}
 	if (!strcmp(fn, "ppSqr"))
 	{
-		word *a = ww(n), *c = ww(2 * n);
+		word *a = ww(n), *c = wo(2 * n);
 		CHK("ppSqr_deep");
 		ppSqr(c, a, n, st.p);
 		wfree(a, n); wfree(c, 2 * n);
@@ -230,7 +230,7 @@ static int c07_math(const char* fn, const char* sizefn, buf_t st, size_t size, i
 	}
 	if (!strcmp(fn, "ppDiv") || !strcmp(fn, "ppMod"))
 	{
-		word *a = ww(n), *b = wwnz(m), *r = ww(m);
+		word *a = ww(n), *b = wwnz(m), *r = wo(m);
 		if (m == 0) return 0;
 		if (np > 3 && PA(2) == 1) b[m - 1] = 1;
 		if (!strcmp(fn, "ppDiv"))
@@ -238,7 +238,7 @@ static int c07_math(const char* fn, const char* sizefn, buf_t st, size_t size, i
 			word* q;
 			CHK("ppDiv_deep");
 			if (n < m) return 0;
-			q = ww(n - m + 1);
+			q = wo(n - m + 1);
 			ppDiv(q, r, a, n, b, m, st.p);
 			wfree(q, n - m + 1);
 		}
@@ -251,15 +251,15 @@ static int c07_math(const char* fn, const char* sizefn, buf_t st, size_t size, i
 		word *a = wwnz(n), *b = wwnz(m);
 		size_t mn = n < m ? n : m;
 		if (n == 0 || m == 0) return 0;
-		if (!strcmp(fn, "ppGCD")) { word* d = ww(mn); CHK("ppGCD_deep"); ppGCD(d, a, n, b, m, st.p); wfree(d, mn); }
-		else { word *d = ww(mn), *da = ww(m), *db = ww(n); CHK("ppExGCD_deep"); ppExGCD(d, da, db, a, n, b, m, st.p); wfree(d, mn); wfree(da, m); wfree(db, n); }
+		if (!strcmp(fn, "ppGCD")) { word* d = wo(mn); CHK("ppGCD_deep"); ppGCD(d, a, n, b, m, st.p); wfree(d, mn); }
+		else { word *d = wo(mn), *da = wo(m), *db = wo(n); CHK("ppExGCD_deep"); ppExGCD(d, da, db, a, n, b, m, st.p); wfree(d, mn); wfree(da, m); wfree(db, n); }
 		wfree(a, n); wfree(b, m);
 		return 1;
 	}
 	if (!strcmp(fn, "ppMulMod") || !strcmp(fn, "ppSqrMod") || !strcmp(fn, "ppInvMod") || !strcmp(fn, "ppDivMod"))
 	{
 		/* mod with non-zero top word and non-zero constant term; a, b of lower degree */
-		word *mod = wwnz(n), *a = ww(n), *b = ww(n), *c = ww(n);
+		word *mod = wwnz(n), *a = ww(n), *b = ww(n), *c = wo(n);
 		size_t dm;
 		if (n == 0) return 0;
 		mod[0] |= 1;
@@ -294,7 +294,7 @@ static int c07_math(const char* fn, const char* sizefn, buf_t st, size_t size, i
 	}
 	if (!strcmp(fn, "ppMinPolyMod"))
 	{
-		word *mod = wwnz(n), *a = ww(n), *c = ww(n);
+		word *mod = wwnz(n), *a = ww(n), *c = wo(n);
 		CHK("ppMinPolyMod_deep");
 		if (n == 0) return 0;
 		mod[0] |= 1;
@@ -340,7 +340,7 @@ static int c07_math(const char* fn, const char* sizefn, buf_t st, size_t size, i
 	if (!strcmp(fn, "priNextPrime"))
 	{
 		/* run <fn> priNextPrime_deep 2 n base_count | n base_count seed */
-		word *a = ww(n), *c = ww(n);
+		word *a = ww(n), *c = wo(n);
 		CHK("priNextPrime_deep");
 		if (n == 0 || n > 2) return 0;
 		wwTrimHi(a, n, n * B_PER_W - 1); a[n - 1] |= (word)1 << (B_PER_W - 3);
@@ -403,7 +403,7 @@ static int c07_math(const char* fn, const char* sizefn, buf_t st, size_t size, i
 		{
 			size_t nn = f->n, i;
 			buf_t s2 = stk(f->deep);
-			word *a = ww(nn), *b = ww(nn), *c = ww(nn);
+			word *a = ww(nn), *b = ww(nn), *c = wo(nn);
 			octet* oct = (octet*)malloc(f->no);
 			wwTrimHi(a, nn, pp[0]); wwTrimHi(b, nn, pp[0]);
 			if (wwIsZero(b, nn)) b[0] = 1;
@@ -460,7 +460,7 @@ static int c07_math(const char* fn, const char* sizefn, buf_t st, size_t size, i
 		bfree(s2);
 		if (ec->hdr.keep > eb.n || ec->deep > ecpCreateJ_deep(nn, f->deep)) { fprintf(stderr, "Assertion c07: ec keep/deep exceed declared\n"); abort(); }
 		{
-			word *d = ww(nn), *d2 = ww(nn / 2 + 1), *b = ww(2 * nn), *c = ww(2 * nn);
+			word *d = ww(nn), *d2 = ww(nn / 2 + 1), *b = wo(2 * nn), *c = wo(2 * nn);
 			size_t mlen = 1 + (size_t)(rnd() % nn);
 			s2 = stk(ecMulA_deep(nn, ec->d, ec->deep, nn));
 			ecMulA(b, ec->base, ec, d, nn, s2.p);
@@ -542,7 +542,7 @@ static int c07_math(const char* fn, const char* sizefn, buf_t st, size_t size, i
 		bfree(s2);
 		if (ec->hdr.keep > eb.n || ec->deep > ec2CreateLD_deep(nn, f->deep)) { fprintf(stderr, "Assertion c07: ec2 keep/deep exceed declared\n"); abort(); }
 		{
-			word *d = ww(nn), *b = ww(2 * nn), *c = ww(2 * nn);
+			word *d = ww(nn), *b = wo(2 * nn), *c = wo(2 * nn);
 			wwTrimHi(d, nn, prm->p[0] - 1);
 			s2 = stk(ecMulA_deep(nn, ec->d, ec->deep, nn));
 			ecMulA(b, ec->base, ec, d, nn, s2.p);
